@@ -319,6 +319,11 @@ def cli_variants(rng, base, bl, al):
         if rng.random() < 0.3: out.append(dict(c, select=sel + sel[:1]))
         good += out[-3:]
     if rng.random() < 0.5:
+        # the same name selected as a hard and as an optional dependency: different command lines, although the names agree
+        c = rng.choice(good); x = rng.choice(["m0", "m1", "m2", "m3", "m4", "nosuchmodule"]); rest = rng.sample(mods[:4], rng.randint(0, 1))
+        pair = [dict(c, select=rest + [x]), dict(c, select=rest + ["?" + x])]
+        rng.shuffle(pair); out += pair
+    if rng.random() < 0.5:
         dis = rng.sample(mods[:4], rng.randint(1, 2)); c = rng.choice(good)
         out.append(dict(c, disable=dis))
         if len(dis) > 1: out.append(dict(c, disable=dis[::-1]))
